@@ -2388,6 +2388,29 @@ class PyCdlib:
 
         self._initialized = True
 
+    def _parse_fp(self, fp):
+        # type: (IO) -> None
+        """
+        An internal method to parse an existing ISO, reporting every failure to
+        make sense of the bytes as a PyCdlibInvalidISO.  The parser unpacks
+        fixed-size structures, indexes buffers and looks up tables with values
+        that come from the ISO; on a truncated or corrupt ISO those operations
+        fail with struct.error, IndexError, KeyError, ValueError (including
+        UnicodeDecodeError) or OverflowError.  They are converted here, at the
+        single entry point of parsing, with the original exception chained.
+        Other exception types (TypeError, AttributeError, ...) are programming
+        errors and are deliberately not converted.
+
+        Parameters:
+         fp - The file object containing the ISO to open up.
+        Returns:
+         Nothing.
+        """
+        try:
+            self._open_fp(fp)
+        except (struct.error, IndexError, KeyError, ValueError, OverflowError) as err:
+            raise pycdlibexception.PyCdlibInvalidISO('Failed to parse ISO (%s: %s)' % (type(err).__name__, err)) from err
+
     def _get_and_write_fp(self, iso_path, outfp, blocksize):
         # type: (bytes, BinaryIO, int) -> None
         """
@@ -4216,7 +4239,7 @@ class PyCdlib:
         fp = open(filename, mode)  # pylint: disable=consider-using-with,unspecified-encoding
         self._managing_fp = True
         try:
-            self._open_fp(fp)
+            self._parse_fp(fp)
         except Exception:
             fp.close()
             raise
@@ -4238,7 +4261,7 @@ class PyCdlib:
         if self._initialized:
             raise pycdlibexception.PyCdlibInvalidInput('This object already has an ISO; either close it or create a new object')
 
-        self._open_fp(fp)
+        self._parse_fp(fp)
 
     def get_file_from_iso(self, local_path, **kwargs):
         # type: (str, Union[str, int]) -> None
